@@ -64,10 +64,14 @@ func outcomeKey(per map[string][]string) string {
 	return sb.String()
 }
 
-// sequentialOutcomes runs M-CORR over every interleaving of the threads' op
-// sequences that respects program order and returns the set of outcomes.
+// sequentialOutcomes runs every interleaving of the threads' op sequences that
+// respects program order SEQUENTIALLY against a fresh instance of the real
+// tracker and returns the set of outcomes. The property is atomicity: a
+// concurrent run must produce what some sequential ordering of the same
+// deliveries produces — with the same implementation. (Whether the sequential
+// behaviour itself is right is decided by C01/C02/C04/C09 against M-CORR.)
 func sequentialOutcomes(p c03Prog) map[string]bool {
-	ops, starts, epi := p.flat()
+	_, starts, epi := p.flat()
 	out := map[string]bool{}
 	idx := make([]int, len(p.Threads))
 	order := make([]int, 0, epi)
@@ -87,25 +91,13 @@ func sequentialOutcomes(p c03Prog) map[string]bool {
 		if !doneAll {
 			return
 		}
-		m := newCorrModel()
-		per := map[string][]string{}
-		apply := func(i int) {
-			for _, e := range m.step(i, ops[i], ops) {
-				per[sesString(e.Ses)] = append(per[sesString(e.Ses)], fmt.Sprintf("%d@%d", e.Ev, e.Login))
-			}
-		}
-		for i := range p.Prelude {
-			apply(i)
-		}
+		in := newC03Instance(p, false)
+		in.runSequentialPart(false)
 		for _, i := range order {
-			apply(i)
+			in.do(i)
 		}
-		for i := epi; i < len(ops); i++ {
-			apply(i)
-		}
-		if !m.ambiguous {
-			out[outcomeKey(per)] = true
-		}
+		in.runSequentialPart(true)
+		out[in.observed()] = true
 	}
 	rec()
 	return out
